@@ -2,6 +2,7 @@ package main
 
 import (
 	"crypto"
+	"crypto/ed25519"
 	"crypto/rand"
 	"crypto/x509"
 	"crypto/x509/pkix"
@@ -183,7 +184,7 @@ var honestOrigins = []string{"https://example.com", "https://login.example.com:8
 func newRegSpec(r *RNG, format string, credAlg int) *RegSpec {
 	origin := pick(r, honestOrigins)
 	s := &RegSpec{Format: format, CredAlg: credAlg, Origin: origin, Client: origin, Challenge: r.Bytes(16 + r.Intn(32)),
-		UserID: r.Bytes(1 + r.Intn(16)), CredID: r.Bytes(pick(r, []int{1, 16, 16, 32, 32, 64, 200})), AAGUID: r.Bytes(16),
+		UserID: r.Bytes(pick(r, []int{1 + r.Intn(16), 1 + r.Intn(16), 1 + r.Intn(16), 64, 65 + r.Intn(40)})), CredID: r.Bytes(pick(r, []int{1, 16, 16, 32, 32, 64, 200})), AAGUID: r.Bytes(16),
 		Flags: 0x41, Counter: uint32(r.U64() >> uint(r.Intn(33))), Algs: []int{credAlg}, Dev: map[string]bool{}, FixedKey: true, Var: -1}
 	if r.P(1, 40) {
 		s.CredID = r.Bytes(pick(r, []int{0, 255, 256, 1023}))
@@ -270,6 +271,15 @@ func attAlgsFor(format string) []int {
 
 // algItem: the statement's alg member; the deviation alg.uint64Wrapped writes it as the CBOR UNSIGNED 64-bit integer 2^64 + alg (which is
 // not the negative COSE identifier: the member is then not an algorithm at all)
+// sigItem: the statement's sig member; the deviation sig.trailingBytes appends bytes to a genuine signature (a signature of the wrong
+// length is not a signature, whatever its leading bytes are)
+func sigItem(r *RNG, s *RegSpec, sig []byte) []byte {
+	if s.d("sig.trailingBytes") {
+		sig = append(append([]byte{}, sig...), pick(r, [][]byte{{0}, {1}, r.Bytes(8), make([]byte, 32)})...)
+	}
+	return cborBytes(sig)
+}
+
 func algItem(s *RegSpec, alg int64) []byte {
 	if s.d("alg.uint64Wrapped") {
 		v := uint64(alg)
@@ -296,6 +306,10 @@ func buildRegistration(r *RNG, s *RegSpec) *RegBuilt {
 		switch {
 		case s.Format == "fido-u2f" && s.d("u2f.credNotEC2"):
 			cred = genKeyPair(r, pick(r, []int{algRS256, algEdDSA, algPS256}))
+			s.Algs = allAlgs
+		case s.d("key.okpOversize") && s.Format != "tpm" && s.Format != "fido-u2f":
+			s.CredAlg = algEdDSA
+			cred = genKeyPair(r, algEdDSA)
 			s.Algs = allAlgs
 		case s.d("key.rsaExponentAliased"):
 			s.CredAlg = pick(r, []int{algRS256, algPS256, algRS384})
@@ -350,6 +364,9 @@ func buildRegistration(r *RNG, s *RegSpec) *RegBuilt {
 	b.CDHash = sha(b.CDJ)
 	// authenticator data
 	key := cred.COSE(s.FixedKey)
+	if s.d("key.okpOversize") && cred.Kind != "ed" {
+		s.Dev["key.unsupported"] = true // formats without Ed25519 credential keys: another unsupported key instead
+	}
 	if s.d("key.unsupported") {
 		key = pick(r, [][]byte{cborMap(cborInt(1), cborInt(4), cborInt(3), cborInt(-7)), cborMap(cborInt(1), cborInt(2), cborInt(3), cborInt(-7), cborInt(-1), cborInt(8), cborInt(-2), cborBytes(r.Bytes(32)), cborInt(-3), cborBytes(r.Bytes(32))), cborBytes([]byte{1, 2}), cborMap()})
 	}
@@ -361,6 +378,10 @@ func buildRegistration(r *RNG, s *RegSpec) *RegBuilt {
 			kvs = append(kvs, cborInt(3), cborInt(0))
 		}
 		key = cborMap(kvs...)
+	}
+	if s.d("key.okpOversize") && cred.Kind == "ed" {
+		// an Ed25519 key whose x member is longer than 32 bytes (the genuine key followed by more): not a key of that curve
+		key = cborMap(cborInt(1), cborInt(1), cborInt(3), cborInt(-8), cborInt(-1), cborInt(6), cborInt(-2), cborBytes(append(append([]byte{}, cred.Ed.Public().(ed25519.PublicKey)...), pick(r, [][]byte{{0}, make([]byte, 8), r.Bytes(32)})...)))
 	}
 	if s.d("key.rsaExponentAliased") && cred.Kind == "rsa" {
 		// the same modulus with the exponent 2^64 + e written in nine bytes: a different RSA key (and not one the library supports)
@@ -413,6 +434,14 @@ func buildRegistration(r *RNG, s *RegSpec) *RegBuilt {
 		}
 	}
 	signed := append(append([]byte{}, b.AuthData...), b.CDHash...)
+	if s.d("ad.trailingUnsigned") {
+		// bytes behind the structured part of the authenticator data that the signer never saw: what is signed is D ‖ hash, what is
+		// presented is D ‖ T (a verifier that re-marshals the parsed structure loses T; the whole authenticator data is covered)
+		b.AuthData = append(append([]byte{}, b.AuthData...), pick(r, [][]byte{{0}, r.Bytes(4), make([]byte, 16)})...)
+	}
+	if s.d("rawId.lengthVariant") {
+		b.RawID = pick(r, [][]byte{append(append([]byte{}, s.CredID...), make([]byte, 3)...), append(append([]byte{}, s.CredID...), r.Bytes(256)...), append(append([]byte{}, s.CredID...), make([]byte, 256)...)})
+	}
 	if s.d("sig.otherMessage") {
 		signed = append(append([]byte{}, b.AuthData...), sha([]byte("other client data"))...)
 	}
@@ -451,7 +480,7 @@ func buildRegistration(r *RNG, s *RegSpec) *RegBuilt {
 				alg = pick(r, allAlgs)
 			}
 		}
-		b.Stmt = stmtOf(cborText("alg"), algItem(s, int64(alg)), cborText("sig"), cborBytes(mkSig(signer, s.CredAlg, signed)))
+		b.Stmt = stmtOf(cborText("alg"), algItem(s, int64(alg)), cborText("sig"), sigItem(r, s, mkSig(signer, s.CredAlg, signed)))
 	case "packed-x5c":
 		att := genKeyPair(r, s.AttAlg)
 		signer := att
@@ -520,9 +549,14 @@ func buildRegistration(r *RNG, s *RegSpec) *RegBuilt {
 		if s.d("x5c.leafSecond") {
 			chain = [][]byte{caCert.Raw, der}
 		}
-		b.Stmt = stmtOf(cborText("alg"), algItem(s, int64(s.AttAlg)), cborText("sig"), cborBytes(mkSig(signer, s.AttAlg, signed)), cborText("x5c"), x5cOf(chain...))
+		b.Stmt = stmtOf(cborText("alg"), algItem(s, int64(s.AttAlg)), cborText("sig"), sigItem(r, s, mkSig(signer, s.AttAlg, signed)), cborText("x5c"), x5cOf(chain...))
+		if len(s.Dev) == 0 && r.P(1, 3) {
+			// a further statement member next to x5c (ECDAA was dropped from the format; the member is not read): the verdict does not
+			// depend on it, nor on the order in which a map happens to be walked
+			b.Stmt = stmtOf(cborText("alg"), algItem(s, int64(s.AttAlg)), cborText("ecdaaKeyId"), cborBytes(r.Bytes(16)), cborText("sig"), sigItem(r, s, mkSig(signer, s.AttAlg, signed)), cborText("x5c"), x5cOf(chain...))
+		}
 		if s.d("x5c.empty") {
-			b.Stmt = stmtOf(cborText("alg"), algItem(s, int64(s.AttAlg)), cborText("sig"), cborBytes(mkSig(signer, s.AttAlg, signed)), cborText("x5c"), cborArray())
+			b.Stmt = stmtOf(cborText("alg"), algItem(s, int64(s.AttAlg)), cborText("sig"), sigItem(r, s, mkSig(signer, s.AttAlg, signed)), cborText("x5c"), cborArray())
 		}
 	case "fido-u2f":
 		att := genKeyPairOnCurve(r, algES256, 1, false)
@@ -578,14 +612,14 @@ func buildRegistration(r *RNG, s *RegSpec) *RegBuilt {
 		if s.d("u2f.twoCerts") {
 			chain = append(chain, caCert.Raw)
 		}
-		b.Stmt = stmtOf(cborText("sig"), cborBytes(mkSig(signer, signAlg, msg)), cborText("x5c"), x5cOf(chain...))
+		b.Stmt = stmtOf(cborText("sig"), sigItem(r, s, mkSig(signer, signAlg, msg)), cborText("x5c"), x5cOf(chain...))
 		if s.d("u2f.noCerts") {
-			b.Stmt = stmtOf(cborText("sig"), cborBytes(mkSig(signer, signAlg, msg)), cborText("x5c"), cborArray())
+			b.Stmt = stmtOf(cborText("sig"), sigItem(r, s, mkSig(signer, signAlg, msg)), cborText("x5c"), cborArray())
 		}
 		if s.d("u2f.emptyX5cEntries") {
 			// x5c has more than one element: the certificate and one or more zero-length byte strings
 			chain = pick(r, [][][]byte{{der, {}}, {{}, der}, {{}, der, {}, {}}, {der, {}, {}}})
-			b.Stmt = stmtOf(cborText("sig"), cborBytes(mkSig(signer, signAlg, msg)), cborText("x5c"), x5cOf(chain...))
+			b.Stmt = stmtOf(cborText("sig"), sigItem(r, s, mkSig(signer, signAlg, msg)), cborText("x5c"), x5cOf(chain...))
 		}
 	case "android-key":
 		certKey := cred
@@ -640,7 +674,7 @@ func buildRegistration(r *RNG, s *RegSpec) *RegBuilt {
 				}
 			}
 		}
-		b.Stmt = stmtOf(cborText("alg"), algItem(s, int64(s.CredAlg)), cborText("sig"), cborBytes(mkSig(signer, s.CredAlg, signed)), cborText("x5c"), x5cOf(leafFirstOrSecond(s, der)...))
+		b.Stmt = stmtOf(cborText("alg"), algItem(s, int64(s.CredAlg)), cborText("sig"), sigItem(r, s, mkSig(signer, s.CredAlg, signed)), cborText("x5c"), x5cOf(leafFirstOrSecond(s, der)...))
 	case "apple":
 		certKey := cred
 		if s.d("apple.certKeyOther") {
@@ -728,7 +762,8 @@ func buildRegistration(r *RNG, s *RegSpec) *RegBuilt {
 		certInfo := tpmCertInfo(extra, name, magic, typ)
 		attrs := honestTPMAttrs(r)
 		if s.d("tpm.sanUnknownVendor") {
-			attrs[0].Val = pick(r, []string{"id:00000000", "id:12345678", "id:414D4401", "AMD", "id:414D44"})
+			attrs[0].Val = pick(r, []string{"id:00000000", "id:12345678", "id:414D4401", "AMD", "id:414D44",
+				"id:414D4420", "id:4E534D00", "id:57454320", "id:53544D00", "id:49424D20"}) // incl. registered names with the other padding byte
 		}
 		if s.d("tpm.sanNoModel") {
 			attrs = []tpmAttr{attrs[0], attrs[2]}
@@ -773,10 +808,10 @@ func buildRegistration(r *RNG, s *RegSpec) *RegBuilt {
 			toSign[len(toSign)-1] ^= 1
 		}
 		b.Stmt = stmtOf(cborText("ver"), cborText("2.0"), cborText("alg"), algItem(s, int64(s.AttAlg)), cborText("x5c"), x5cOf(leafFirstOrSecond(s, der)...),
-			cborText("sig"), cborBytes(mkSig(signer, s.AttAlg, toSign)), cborText("certInfo"), cborBytes(certInfo), cborText("pubArea"), cborBytes(pubEnc))
+			cborText("sig"), sigItem(r, s, mkSig(signer, s.AttAlg, toSign)), cborText("certInfo"), cborBytes(certInfo), cborText("pubArea"), cborBytes(pubEnc))
 		if s.d("tpm.noCerts") {
 			b.Stmt = stmtOf(cborText("ver"), cborText("2.0"), cborText("alg"), algItem(s, int64(s.AttAlg)), cborText("x5c"), cborArray(),
-				cborText("sig"), cborBytes(mkSig(signer, s.AttAlg, toSign)), cborText("certInfo"), cborBytes(certInfo), cborText("pubArea"), cborBytes(pubEnc))
+				cborText("sig"), sigItem(r, s, mkSig(signer, s.AttAlg, toSign)), cborText("certInfo"), cborBytes(certInfo), cborText("pubArea"), cborBytes(pubEnc))
 		}
 	case "android-safetynet":
 		leafKey := genKeyPair(r, pick(r, []int{algRS256, algES256}))
